@@ -1,12 +1,17 @@
 package schist
 
 import (
+	"encoding/json"
 	"fmt"
 	"math"
+	"strconv"
+	"strings"
+	"unicode"
 
 	"0chain.net/chaincore/transaction"
 	"0chain.net/core/encryption"
 	"0chain.net/smartcontract/zcnsc"
+	"github.com/herumi/bls-go-binary/bls"
 
 	"verifh/mon"
 	"verifh/world"
@@ -23,6 +28,7 @@ type zcnShadow struct {
 	Auths     []*authShadow
 	NextNonce int64
 	Minted    []int64
+	MintedEth map[int64]string // burn reference of every successful mint (generator memory)
 	EthAddrs  []string
 	n         int
 }
@@ -117,101 +123,7 @@ func zcnOps() []OpDef {
 			}
 			return &Call{Name: "zcn.burn", Mut: mut, Meta: map[string]interface{}{"eth": in["ethereum_address"]}, Spec: world.TxnSpec{From: from, To: sc, Value: Coin(v), Fee: Coin(h.fee(r) % 1000), Type: T, Func: "burn", Input: in}}
 		}},
-		{Name: "zcn.mint", Tags: []string{"zcn", "C18"}, Build: func(h *Hist, r *mon.Rand) *Call {
-			z := h.S.Zc
-			l := live(h)
-			if len(z.Auths) == 0 {
-				return nil
-			}
-			recv := h.anyWallet(r)
-			from := recv
-			hostile := h.Vars["hostile"].(float64)
-			mut := ""
-			nonce := z.NextNonce
-			if len(z.Minted) > 0 && r.Chance(0.15+hostile*0.3) {
-				nonce = z.Minted[r.Intn(len(z.Minted))]
-				mut = "nonce-reuse"
-			}
-			amount := []uint64{1e10, 1e12, 100e10, 100e10 - 1, 100e10 + 1, 5, 3e12}[r.Intn(7)]
-			eth := fmt.Sprintf("0xeth%d", r.Intn(100000))
-			toSign := mintStringToSign(eth, amount, nonce, recv.ID)
-			var sigs []map[string]string
-			// how many distinct live authorizers sign
-			k := len(l)
-			if len(l) > 0 {
-				switch r.Intn(6) {
-				case 0:
-					k = 1 + r.Intn(len(l))
-				case 1:
-					k = int(math.RoundToEven(0.7 * float64(len(l)))) // exactly the threshold
-				case 2:
-					k = int(math.RoundToEven(0.7*float64(len(l)))) - 1
-					if k < 0 {
-						k = 0
-					}
-				}
-			}
-			perm := make([]int, len(l))
-			for i := range perm {
-				perm[i] = i
-			}
-			r.Shuffle(len(perm), func(i, j int) { perm[i], perm[j] = perm[j], perm[i] })
-			for i := 0; i < k && i < len(perm); i++ {
-				a := l[perm[i]]
-				sigs = append(sigs, map[string]string{"authorizer_id": a.W.ID, "signature": a.W.Sign(toSign)})
-			}
-			if r.Chance(hostile) && len(sigs) > 0 {
-				switch r.Intn(6) {
-				case 0: // duplicates pad the count
-					for len(sigs) < len(l)+2 {
-						sigs = append(sigs, sigs[0])
-					}
-					mut = "duplicate-signatures"
-				case 1: // forged signature
-					sigs[0]["signature"] = h.anyClient(r).Sign(toSign)
-					mut = "forged-signature"
-				case 2: // signed by a non-authorizer
-					st := h.anyClient(r)
-					sigs = append(sigs, map[string]string{"authorizer_id": st.ID, "signature": st.Sign(toSign)})
-					mut = "non-authorizer"
-				case 3: // signed for another payload
-					other := mintStringToSign(eth, amount+1, nonce, recv.ID)
-					for _, s := range sigs {
-						for _, a := range l {
-							if a.W.ID == s["authorizer_id"] {
-								s["signature"] = a.W.Sign(other)
-							}
-						}
-					}
-					mut = "other-payload"
-				case 4: // submitted by someone else
-					from = h.anyClient(r)
-					if from != recv {
-						mut = "foreign-submitter"
-					}
-				case 5: // a deleted authorizer signs
-					for _, a := range z.Auths {
-						if a.Deleted {
-							sigs = append(sigs, map[string]string{"authorizer_id": a.W.ID, "signature": a.W.Sign(toSign)})
-							mut = "deleted-authorizer"
-							break
-						}
-					}
-				}
-			}
-			in := map[string]interface{}{"ethereum_txn_id": eth, "amount": amount, "nonce": nonce, "receiving_client_id": recv.ID, "signatures": sigs}
-			meta := map[string]interface{}{"mint": map[string]interface{}{"eth": eth, "amount": amount, "nonce": nonce, "recv": recv.ID, "sigs": sigs}}
-			c := &Call{Name: "zcn.mint", Mut: mut, Meta: meta, Spec: world.TxnSpec{From: from, To: sc, Fee: Coin(h.fee(r) % 1000), Type: T, Func: "mint", Input: in}}
-			c.After = func(h *Hist, o *TxnObs) {
-				if o.Outcome == "success" {
-					z.Minted = append(z.Minted, nonce)
-					if nonce == z.NextNonce {
-						z.NextNonce++
-					}
-				}
-			}
-			return c
-		}},
+		{Name: "zcn.mint", Tags: []string{"zcn", "C18"}, Build: func(h *Hist, r *mon.Rand) *Call { return zcBuildMint(h, r, "") }},
 		{Name: "zcn.stake", Tags: []string{"zcn", "stake", "C11"}, Build: func(h *Hist, r *mon.Rand) *Call {
 			l := h.S.Zc.Auths
 			if len(l) == 0 {
@@ -258,6 +170,407 @@ func zcnOps() []OpDef {
 			return &Call{Name: "zcn.collect-rewards", Meta: map[string]interface{}{"provider_type": "authorizer", "provider_id": a.W.ID, "stake": "collect"}, Spec: world.TxnSpec{From: from, To: sc, Fee: Coin(h.fee(r) % 1000), Type: T, Func: "collect-rewards", Input: map[string]interface{}{"provider_type": 5, "provider_id": a.W.ID}}}
 		}},
 	}
+}
+
+// ---- mint payload generator -------------------------------------------------------------------------------------------------
+
+func zcLive(h *Hist) []*authShadow {
+	var out []*authShadow
+	for _, a := range h.S.Zc.Auths {
+		if !a.Deleted {
+			out = append(out, a)
+		}
+	}
+	return out
+}
+
+// zcPercent reads the configured signer fraction of the current state (generator side: used to aim at the threshold only).
+func zcPercent(h *Hist) float64 {
+	p := 0.7
+	for _, n := range h.NodesOfType(h.Cur, "*zcnsc.GlobalNode") {
+		if f := F(n.Val, "ZCNSConfig.PercentAuthorizers"); f.IsValid() {
+			p = f.Float()
+		}
+	}
+	return p
+}
+
+// zcPoint returns the affine coordinates (hex) of a compressed hex signature.
+func zcPoint(sig string) (x, y string, ok bool) {
+	defer func() {
+		if e := recover(); e != nil {
+			ok = false
+		}
+	}()
+	if len(sig) < 2 || len(sig)%2 == 1 {
+		return "", "", false
+	}
+	var s bls.Sign
+	if err := s.DeserializeHexStr(sig); err != nil {
+		return "", "", false
+	}
+	p := strings.Fields(s.GetHexString())
+	if len(p) != 3 {
+		return "", "", false
+	}
+	return p[1], p[2], true
+}
+
+// signature spellings: the first group decodes to the same signature as the lower-case compressed hex the wallets produce
+// (hex digits in either case; the "(x,y)" affine form the signature scheme also accepts), the second group does not decode.
+var zcSpellOK = []string{"upper", "mixed", "affine", "affine-upper", "affine-0x", "affine-spaced"}
+var zcSpellBad = []string{"0x", "0X-upper", "space-lead", "space-trail", "newline-trail", "tab-inner"}
+
+func zcRespell(sig, kind string, r *mon.Rand) string {
+	affine := func(f func(x, y string) string) string {
+		x, y, ok := zcPoint(sig)
+		if !ok {
+			return strings.ToUpper(sig)
+		}
+		return f(x, y)
+	}
+	switch kind {
+	case "upper":
+		return strings.ToUpper(sig)
+	case "mixed":
+		b := []byte(sig)
+		up, low := 0, 0
+		for i, c := range b {
+			if c >= 'a' && c <= 'f' {
+				if r.Chance(0.5) {
+					b[i] = c - 'a' + 'A'
+					up++
+				} else {
+					low++
+				}
+			}
+		}
+		if up == 0 || low == 0 {
+			for i, c := range b {
+				if c >= 'a' && c <= 'f' {
+					b[i] = c - 'a' + 'A'
+					break
+				}
+				if c >= 'A' && c <= 'F' {
+					b[i] = c - 'A' + 'a'
+					break
+				}
+			}
+		}
+		return string(b)
+	case "affine":
+		return affine(func(x, y string) string { return "(" + x + "," + y + ")" })
+	case "affine-upper":
+		return affine(func(x, y string) string { return "(" + strings.ToUpper(x) + "," + strings.ToUpper(y) + ")" })
+	case "affine-0x":
+		return affine(func(x, y string) string { return "(0x" + x + ",0x" + y + ")" })
+	case "affine-spaced":
+		return affine(func(x, y string) string { return "( " + x + " , " + y + " )" })
+	case "0x":
+		return "0x" + sig
+	case "0X-upper":
+		return "0X" + strings.ToUpper(sig)
+	case "space-lead":
+		return " " + sig
+	case "space-trail":
+		return sig + " "
+	case "newline-trail":
+		return sig + "\n"
+	case "tab-inner":
+		return sig[:len(sig)/2] + "\t" + sig[len(sig)/2:]
+	}
+	return sig
+}
+
+// zcBuildMint builds one mint call. family "" = the random operation (hostile mutations with the history's probability);
+// "dup", "respell", "pad-foreign", "plain" = directed payload families used by the C18 scenario.
+func zcBuildMint(h *Hist, r *mon.Rand, family string) *Call {
+	sc := zcnsc.ADDRESS
+	z := h.S.Zc
+	l := zcLive(h)
+	if len(z.Auths) == 0 {
+		return nil
+	}
+	hostile := h.hostile()
+	directed := family != ""
+	recv := h.anyWallet(r)
+	if directed {
+		recv = h.anyClient(r)
+	}
+	from := recv
+	mut := ""
+	nonce := z.NextNonce
+	eth := fmt.Sprintf("0xeth%d", r.Intn(100000))
+	reuse := 0.15 + hostile*0.3
+	if directed {
+		reuse = 0.08
+	}
+	if len(z.Minted) > 0 && r.Chance(reuse) {
+		nonce = z.Minted[r.Intn(len(z.Minted))]
+		mut = "nonce-reuse"
+		if old := z.MintedEth[nonce]; old != "" && r.Chance(0.5) {
+			// the same burn reference again, possibly in another spelling
+			eth = []string{old, strings.ToUpper(old), old + " "}[r.Intn(3)]
+			mut = "nonce-reuse-same-burn-ref"
+		}
+	}
+	amount := []uint64{1e10, 1e12, 100e10, 100e10 - 1, 100e10 + 1, 5, 3e12}[r.Intn(7)]
+	if directed {
+		amount = []uint64{1e12, 100e10, 100e10 + 1, 3e12, 2e10}[r.Intn(5)]
+	}
+	recvID := recv.ID
+	toSign := mintStringToSign(eth, amount, nonce, recvID)
+	thr := int(math.RoundToEven(zcPercent(h) * float64(len(l))))
+	type ent = map[string]string
+	var sigs []ent
+	entry := func(a *authShadow) ent { return ent{"authorizer_id": a.W.ID, "signature": a.W.Sign(toSign)} }
+	// how many distinct live authorizers sign
+	k := len(l)
+	if len(l) > 0 {
+		switch r.Intn(7) {
+		case 0:
+			k = 1 + r.Intn(len(l))
+		case 1:
+			k = thr // exactly the threshold
+		case 2:
+			k = thr - 1
+		case 3:
+			k = thr + 1
+		}
+		if family == "dup" || family == "pad-foreign" {
+			// mostly one signer short of the quorum: the padding decides
+			switch {
+			case thr >= 2 && r.Chance(0.65):
+				k = thr - 1
+			case r.Chance(0.5):
+				k = thr
+			default:
+				k = 1 + r.Intn(len(l))
+			}
+		}
+		if k < 0 {
+			k = 0
+		}
+		if k > len(l) {
+			k = len(l)
+		}
+		if directed && k == 0 {
+			k = 1
+		}
+	}
+	perm := make([]int, len(l))
+	for i := range perm {
+		perm[i] = i
+	}
+	r.Shuffle(len(perm), func(i, j int) { perm[i], perm[j] = perm[j], perm[i] })
+	for i := 0; i < k && i < len(perm); i++ {
+		sigs = append(sigs, entry(l[perm[i]]))
+	}
+	base := len(sigs)
+	// number of entries the padded payload shall have: at, above the threshold, the number of authorizers, beyond it
+	target := func() int {
+		t := []int{thr, thr + 1, len(l), len(l) + 2, base + 1, 2 * base}[r.Intn(6)]
+		if t <= base {
+			t = base + 1
+		}
+		return t
+	}
+	mutation := -1
+	if !directed && r.Chance(hostile) && len(sigs) > 0 {
+		mutation = r.Intn(12)
+	}
+	switch family {
+	case "dup":
+		mutation = []int{0, 6, 6, 6, 6, 7, 11}[r.Intn(7)]
+	case "respell":
+		mutation = 8
+	case "pad-foreign":
+		mutation = []int{2, 5, 9, 10}[r.Intn(4)]
+	}
+	if len(sigs) == 0 {
+		mutation = -1
+	}
+	switch mutation {
+	case 0: // identical duplicates pad the count
+		for t := target(); len(sigs) < t; {
+			sigs = append(sigs, sigs[r.Intn(base)])
+		}
+		mut = "duplicate-signatures"
+	case 1: // forged signature
+		sigs[0]["signature"] = h.anyClient(r).Sign(toSign)
+		mut = "forged-signature"
+	case 2: // signed by non-authorizers
+		n := 1
+		if t := target(); family != "" {
+			n = t - base
+		}
+		for i := 0; i < n; i++ {
+			st := h.anyClient(r)
+			sigs = append(sigs, ent{"authorizer_id": st.ID, "signature": st.Sign(toSign)})
+		}
+		mut = "non-authorizer"
+	case 3: // signed for another payload
+		other := mintStringToSign(eth, amount+1, nonce, recvID)
+		for _, s := range sigs {
+			for _, a := range l {
+				if a.W.ID == s["authorizer_id"] {
+					s["signature"] = a.W.Sign(other)
+				}
+			}
+		}
+		mut = "other-payload"
+	case 4: // submitted by someone else
+		from = h.anyClient(r)
+		if from != recv {
+			mut = "foreign-submitter"
+		}
+	case 5: // deleted authorizers sign
+		for _, a := range z.Auths {
+			if a.Deleted {
+				sigs = append(sigs, entry(a))
+				mut = "deleted-authorizer"
+				if !directed {
+					break
+				}
+			}
+		}
+	case 6: // the same authorizers again, their signatures in other spellings that decode to the same signature
+		kind := zcSpellOK[r.Intn(len(zcSpellOK))]
+		many := r.Chance(0.3)
+		for t := target(); len(sigs) < t; {
+			if many {
+				kind = zcSpellOK[r.Intn(len(zcSpellOK))]
+			}
+			b := sigs[r.Intn(base)]
+			sigs = append(sigs, ent{"authorizer_id": b["authorizer_id"], "signature": zcRespell(b["signature"], kind, r)})
+		}
+		mut = "dup-signer-" + kind
+		if many {
+			mut = "dup-signer-many-spellings"
+		}
+	case 7: // the same authorizers again, signatures in spellings the decoder refuses
+		kind := zcSpellBad[r.Intn(len(zcSpellBad))]
+		for t := target(); len(sigs) < t; {
+			b := sigs[r.Intn(base)]
+			sigs = append(sigs, ent{"authorizer_id": b["authorizer_id"], "signature": zcRespell(b["signature"], kind, r)})
+		}
+		mut = "dup-signer-" + kind
+	case 8: // no duplicates, every signature in another spelling
+		kind := append(append([]string{}, zcSpellOK...), zcSpellBad...)[r.Intn(len(zcSpellOK)+len(zcSpellBad))]
+		for _, s := range sigs {
+			s["signature"] = zcRespell(s["signature"], kind, r)
+		}
+		mut = "spelled-" + kind
+	case 9: // one signature filed under further registered authorizer ids
+		for i := base; i < len(perm) && len(sigs) < target(); i++ {
+			sigs = append(sigs, ent{"authorizer_id": l[perm[i]].W.ID, "signature": sigs[r.Intn(base)]["signature"]})
+		}
+		mut = "signature-under-other-id"
+	case 10: // the same authorizers again under other spellings of their ids
+		kind := r.Intn(4)
+		for t := target(); len(sigs) < t; {
+			b := sigs[r.Intn(base)]
+			id := b["authorizer_id"]
+			id = []string{strings.ToUpper(id), id + " ", " " + id, "0x" + id}[kind]
+			sigs = append(sigs, ent{"authorizer_id": id, "signature": b["signature"]})
+		}
+		mut = "dup-signer-id-respelled"
+	case 11: // duplicates first, the distinct signers at the end (beyond the number of authorizers)
+		first := sigs[0]
+		var pad []ent
+		for i := 0; i < len(l)+r.Intn(2); i++ {
+			pad = append(pad, ent{"authorizer_id": first["authorizer_id"], "signature": zcRespell(first["signature"], zcSpellOK[r.Intn(len(zcSpellOK))], r)})
+		}
+		sigs = append(pad, sigs...)
+		mut = "dup-signer-flood-first"
+	}
+	if mutation != 11 && len(sigs) > base && r.Chance(0.5) {
+		r.Shuffle(len(sigs), func(i, j int) { sigs[i], sigs[j] = sigs[j], sigs[i] })
+	}
+	if !directed && r.Chance(hostile*0.15) {
+		// the receiving client in another spelling (signed as spelled)
+		recvID = strings.ToUpper(recv.ID)
+		toSign = mintStringToSign(eth, amount, nonce, recvID)
+		for _, s := range sigs {
+			for _, a := range l {
+				if a.W.ID == s["authorizer_id"] {
+					s["signature"] = a.W.Sign(toSign)
+				}
+			}
+		}
+		mut = "receiver-id-respelled"
+	}
+	in := map[string]interface{}{"ethereum_txn_id": eth, "amount": amount, "nonce": nonce, "receiving_client_id": recvID, "signatures": sigs}
+	meta := map[string]interface{}{"mint": map[string]interface{}{"eth": eth, "amount": amount, "nonce": nonce, "recv": recvID, "sigs": sigs}}
+	if directed {
+		meta["c18_directed"] = family
+	}
+	c := &Call{Name: "zcn.mint", Mut: mut, Meta: meta, Spec: world.TxnSpec{From: from, To: sc, Fee: Coin(h.fee(r) % 1000), Type: transaction.TxnTypeSmartContract, Func: "mint", Input: in}}
+	c.After = func(h *Hist, o *TxnObs) {
+		if o.Outcome == "success" {
+			z.Minted = append(z.Minted, nonce)
+			if z.MintedEth == nil {
+				z.MintedEth = map[int64]string{}
+			}
+			z.MintedEth[nonce] = eth
+			if nonce == z.NextNonce {
+				z.NextNonce++
+			}
+		}
+	}
+	return c
+}
+
+// zcScenarioC18 is the directed part of the C18 workload: it registers a few authorizers, sometimes changes the configured
+// fraction, and submits mints whose signature lists repeat signers (identical entries, other spellings of the signature or of the
+// id, foreign and removed signers) around the quorum threshold. The random operations follow.
+func zcScenarioC18(h *Hist, mons []Monitor) {
+	r := h.R.Fork("c18-dup-signers")
+	byName := map[string]OpDef{}
+	for _, op := range zcnOps() {
+		byName[op.Name] = op
+	}
+	submit := func(c *Call) *TxnObs {
+		if c == nil {
+			return nil
+		}
+		o := h.Submit(c, mons)
+		if o.Outcome != "rejected" {
+			h.S.Accepted = append(h.S.Accepted, o.Txn)
+			if len(h.S.Accepted) > 64 {
+				h.S.Accepted = h.S.Accepted[1:]
+			}
+		}
+		if h.TxInBlk >= 1+r.Intn(5) {
+			h.EndBlock()
+			h.advanceTime(r)
+		}
+		return o
+	}
+	want := 3 + r.Intn(3)
+	for try := 0; len(zcLive(h)) < want && try < 14; try++ {
+		submit(byName["zcn.add-authorizer"].Build(h, r))
+	}
+	if r.Chance(0.5) {
+		fields := map[string]string{"percent_authorizers": []string{"0.5", "1", "0.34", "0.6", "0.7"}[r.Intn(5)]}
+		submit(&Call{Name: "zcn.update-settings", Meta: map[string]interface{}{"gov": "zcn", "settings": fields, "all_valid_syntax": true},
+			Spec: world.TxnSpec{From: h.W.Owner, To: zcnsc.ADDRESS, Fee: Coin(h.fee(r) % 1000), Type: transaction.TxnTypeSmartContract, Func: "update-global-config", Input: map[string]interface{}{"fields": fields}}})
+	}
+	for i := 0; i < 2; i++ {
+		submit(byName["zcn.stake"].Build(h, r))
+	}
+	for i := 0; i < 9; i++ {
+		fam := []string{"dup", "dup", "dup", "dup", "dup", "dup", "respell", "pad-foreign", "pad-foreign", "plain"}[r.Intn(10)]
+		submit(zcBuildMint(h, r, fam))
+		if i == 4 {
+			submit(byName["zcn.delete-authorizer"].Build(h, r))
+		}
+	}
+	h.EndBlock()
+}
+
+func init() {
+	RegisterScenario(Scenario{Prop: "C18", Name: "duplicated-signers", Every: 1, Fn: zcScenarioC18})
 }
 
 // ---- C18: mint quorum, once per nonce -------------------------------------------------------------------------------------
